@@ -182,7 +182,7 @@ def ensure_ocaml(force=False):
     with Lock("ocaml.lock"):
         ext = os.path.join(COQ, "extract", "Extract.v")
         model = os.path.join(OCAML, "model.ml")
-        srcs = [ext] + [f for f in coq_sources() if "/theories/" in f and "Propert" not in f and "Proofs" not in f]
+        srcs = [ext] + [f for f in coq_sources() if ("/theories/" in f or "/generated/" in f) and "Propert" not in f and "Proofs" not in f]
         newest = max(os.path.getmtime(f) for f in srcs)
         if force or not os.path.exists(model) or os.path.getmtime(model) < newest:
             rc, so, se = sh("coqc -Q ../coq/theories Adept -Q ../coq/generated AdeptGen ../coq/extract/Extract.v",
